@@ -136,7 +136,11 @@ def worker(args):
     n = prop.n_cases(args.tier)
     agg = new_agg()
     t0 = time.time()
-    for idx in range(args.shard, n, args.nshards):
+    for idx in range(n):
+        # case -> worker: rotated by one for every block of nshards cases, so that a sub-class that sits on fixed residues of
+        # the case index still meets every worker environment (hash seed, asserts on/off) in turn
+        if (idx + idx // args.nshards) % args.nshards != args.shard:
+            continue
         rng = case_rng(prop.id, args.seed, idx)
         try:
             case = prop.make_case(rng, idx, args.tier)
